@@ -70,6 +70,26 @@ def setup(root):
             _MODULE_CACHES.append(val)
     from engines import threadsim
     threadsim.install_dormant(m)
+    # module-level names bound to a generator object of the random module (or to one of its methods) at import time
+    import random as _random
+    del _RANDOM_NAMES[:]
+    for name, val in list(vars(m).items()):
+        if isinstance(val, _random.Random):
+            _RANDOM_NAMES.append((name, None, isinstance(val, _random.SystemRandom)))
+        elif isinstance(getattr(val, '__self__', None), _random.Random) and getattr(val, '__name__', '') in ('random', 'uniform'):
+            _RANDOM_NAMES.append((name, val.__name__, isinstance(val.__self__, _random.SystemRandom)))
+
+
+_RANDOM_NAMES = []
+
+
+def _install_random(rnd, case):
+    it.random = rnd
+    rnd.entropy_fail_at = case.get('entropy_fail_at')
+    rnd.entropy_failed = False
+    for name, attr, system in _RANDOM_NAMES:
+        src = rnd.SystemRandom() if system else rnd
+        setattr(it, name, getattr(src, attr) if attr else src)
 
 
 def _reset_module_state():
@@ -87,6 +107,7 @@ def _reset_module_state():
 
 
 EXT_HI = 1.0 - 2.0 ** -53
+LONG = 20000           # sequences up to this length are materialised and judged value by value
 
 
 def _gen_script(rng):
@@ -153,12 +174,13 @@ def gen_case(rng, tier):
         factor = 2.0             # keep sequences short (the harness materialises them)
     count = rng.choice([None, None, None, 0, 1, 2, k, k + 1, k + 3, 'repeat'])
     if rng.random() < 0.02:
-        count = rng.choice([2 ** 63 - 1, 2 ** 63, 2 ** 64, 10 ** 30, 1500])     # explicit counts nobody would materialise
+        count = rng.choice([2 ** 63 - 1, 2 ** 63, 2 ** 64, 10 ** 30, 1500, 10001, 16385])     # explicit counts nobody would materialise, and long ones
     prior_count = rng.choice([0, 1, 2, 3, 'repeat']) if rng.random() < 0.1 else None
     num_type = rng.choice(['decimal', 'fraction']) if rng.random() < 0.04 else None
     jitter = rng.choice([False, False, 0.1, -0.1, 0.5, -0.5, 1.0, -1.0, True, 0.999, -0.25])
     api = rng.choice(['backoff', 'backoff_iter'])
     case = {'start': start, 'stop': stop, 'factor': factor, 'count': count, 'jitter': jitter, 'prior_count': prior_count, 'num_type': num_type,
+            'entropy_fail_at': rng.choice([0, 1, 2, 3, 5]) if rng.random() < 0.05 else None,
             'by_hand': rng.choice([0, 0, 0, 0, 1, 2, 3]),
             'api': api, 'script': _gen_script(rng), 'k_hint': k, 'mutate': rng.choice(['clear', 'append'])}
     if rng.random() < 0.06:
@@ -199,6 +221,12 @@ def gen_case(rng, tier):
         case.update(start=lo, stop=hi, factor=rng.choice([2.0, 10.0, 1e10, 1e100, 1e308, 16.0, 1.2, 1.1]),
                     count=rng.choice([None, None, None, 1, 5, 40]),
                     jitter=rng.choice([False, False, 0.5, 1.0, -0.5, -1.0]))
+    if rng.random() < 0.004:
+        # a valid factor barely above 1: the default count is in the thousands
+        case.update(start=1.0, stop=rng.choice([2.0, 3.0, 4.0]), factor=1.0001, count=None,
+                    jitter=False, num_type=None, prior_count=None)
+    if isinstance(case['count'], int) and LONG >= case['count'] > 5000:
+        case['jitter'] = False      # (long sequences are judged without the exact rational arithmetic of the jitter bounds)
     if case['count'] == 'repeat':
         case['api'] = 'backoff_iter'
     return case
@@ -280,7 +308,7 @@ def _run_threads(case):
     out = core.Outcome()
     log = core.EventLog(keep=False)
     rnd = SimRandom(case['script'], log)
-    it.random = rnd
+    _install_random(rnd, case)
     _reset_module_state()
     specs = case['threads']
     n = len(specs)
@@ -341,7 +369,7 @@ def run_case(case):
     out = core.Outcome()
     log = core.EventLog(keep=False)
     rnd = SimRandom(case['script'], log)
-    it.random = rnd
+    _install_random(rnd, case)
     _reset_module_state()
     s, t, f, c, j = case['start'], case['stop'], case['factor'], case['count'], case['jitter']
     valid = _valid(case)
@@ -367,14 +395,19 @@ def run_case(case):
         c = ''.join(['rep', 'eat'])     # an equal string that is not the interned literal (read from a config file, say)
         kw['count'] = c
     # an explicit count too large to materialise (2**63, 2**64 ...) is consumed like 'repeat': the first values only
-    endless = c == 'repeat' or (isinstance(c, int) and not isinstance(c, bool) and c > 5000)
-    if valid and isinstance(c, int) and 0 <= c <= 5000:
+    endless = c == 'repeat' or (isinstance(c, int) and not isinstance(c, bool) and c > LONG)
+    if valid and isinstance(c, int) and 0 <= c <= LONG:
         need = c                        # an explicit count needs no walk to stop (factor 1 never gets there)
     elif valid:
-        to_stop = _steps_to_stop(s, t, f, cap=5000)
-        if to_stop >= 5000 and endless and f == 1.0:
+        # (a closed-form estimate first: walking 20000 steps only to learn that the sequence is too long is waste)
+        try:
+            est = (math.log(t) - math.log(s if s else min(1.0, t))) / math.log(f) if f > 1.0 else float('inf')
+        except (ValueError, ZeroDivisionError):
+            est = 0.0
+        to_stop = LONG if est > LONG + 16 else _steps_to_stop(s, t, f, cap=LONG)
+        if to_stop >= LONG and endless and f == 1.0:
             to_stop = 40                # constant sequence, repeated endlessly: look at the first few dozen
-        if to_stop >= 5000:
+        if to_stop >= LONG:
             if c is None and _stationary(s, t, f):
                 # growth is not representable (start*factor rounds back to start): no float sequence can reach
                 # stop, so nothing is demanded of the values -- but the default count must still be finite
@@ -424,9 +457,9 @@ def run_case(case):
         if case['api'] == 'backoff' and not overrun and not endless:
             # the list form must be the same sequence (same scripted draws)
             rnd2 = SimRandom(case['script'], None)
-            it.random = rnd2
+            _install_random(rnd2, {})
             lst = it.backoff(S, T, **kw)
-            it.random = rnd
+            _install_random(rnd, {})
             forms.append(('list-form-differs', 'backoff() with the same arguments and draws', list(lst)))
             if isinstance(lst, list):
                 # a caller may consume or edit its list (pop the delays it has used, append a final
@@ -435,9 +468,9 @@ def run_case(case):
                     del lst[:]
                 else:
                     lst.append(-1.0)
-                it.random = SimRandom(case['script'], None)
+                _install_random(SimRandom(case['script'], None), {})
                 again = it.backoff(S, T, **kw)
-                it.random = rnd
+                _install_random(rnd, {})
                 forms.append(('result-shared-between-calls', 'an equal backoff() call after the caller edited the list it was given',
                               list(again)))
     except Exception as e:
@@ -454,7 +487,7 @@ def run_case(case):
         elif case['api'] == 'backoff' and c != 'repeat':
             # the list form is its own entry point: it must refuse the same parameters
             try:
-                it.random = SimRandom(case['script'], None)
+                _install_random(SimRandom(case['script'], None), {})
                 got = it.backoff(S, T, **kw)
                 out.fail('invalid-parameters-accepted', 0, 'backoff(%r, %r, count=%r, factor=%r, jitter=%r) returned %r, expected ValueError'
                          % (s, t, c, f, j, list(got)[:8]), clause='ValueError', api='backoff')
@@ -464,7 +497,7 @@ def run_case(case):
                 out.fail('invalid-parameters-accepted', 0, 'backoff(%r, %r, count=%r, factor=%r, jitter=%r) raised %r, expected ValueError'
                          % (s, t, c, f, j, e), clause='ValueError', api='backoff')
             finally:
-                it.random = rnd
+                _install_random(rnd, {})
         out.digest = log.digest()
         return out
     if overrun:
